@@ -103,7 +103,7 @@ def gen_c01(rng, fs, i, cfg):
     r = rng.random()
     if not have or r < 0.7:
         fid = rng.choice(FILES[:1] if rng.random() < 0.7 else FILES)
-        op = gen.gen_create(rng, maxpx=cfg.get("maxpx", 60),
+        op = gen.gen_create(rng, maxpx=cfg.get("maxpx", 60), big64=True,
                             layout=gen.gen_layout(rng, cfg.get("maxchroms", 4), cfg.get("maxbins", 8)))
         op.update(file=fid, path=_dest(rng, fs, fid, prefer_new=0.8), slash=rng.random() < 0.7,
                   mode="w" if rng.random() < 0.05 else "a")
@@ -405,6 +405,9 @@ def gen_c09(rng, fs, i, cfg):
             while any(bad % b == 0 for b in res):
                 bad += 1
             targets.append(bad)
+        elif rng.random() < 0.08 and min(res) > 1:
+            # a non-derivable member finer than every base
+            targets.append(rng.randint(1, min(res) - 1))
         rng.shuffle(targets)
         nnz = max(len(fs.lookup(f, p).coll.pixels) for f, p in bases)
         cols = None
@@ -434,7 +437,7 @@ def gen_c06(rng, fs, i, cfg):
             n = len(ch["bin1_id"])
             recs += [tuple(ch[c][r] for c in cols) for r in range(n)]
         rng.shuffle(recs)
-        k = rng.randint(1, 6)
+        k = rng.randint(1, rng.choice([4, 6, 11]))
         parts = [[] for _ in range(k)]
         # a pixel may appear once per chunk only (dupcheck): distribute greedily
         for rec in recs:
@@ -460,7 +463,7 @@ def gen_c06(rng, fs, i, cfg):
         if rng.random() < 0.15:
             return gen_cliload(rng, fs, i, cfg)
         op = gen.gen_unordered(rng, gen.gen_layout(rng, cfg.get("maxchroms", 4), cfg.get("maxbins", 8)),
-                               maxpx=cfg.get("maxpx", 40))
+                               maxpx=cfg.get("maxpx", 40), maxchunks=rng.choice([3, 6, 8, 11]))
         ctx["last"] = op
     op = dict(op)
     fid = rng.choice(["f0", "f0", "f1"])
@@ -496,7 +499,10 @@ def gen_scool(rng, cfg, fault=False):
         cells[nm] = {"chunks": chunks, "form": form,
                      "bin_extra": ({"w": [gen.dyadic(rng, 0, 2) for _ in range(n)]}
                                    if per_cell and rng.random() < 0.7 else None)}
+    insert = list(names)
+    rng.shuffle(insert)
     op = {"op": "scool", "layout": lay, "symmetric": symm, "dtypes": colspec, "cells": cells,
+          "insert_order": insert, "bins_reversed": rng.random() < 0.3,
           "bins_as_dict": per_cell, "metadata": rng.choice(gen.METADATA), "assembly": rng.choice(gen.ASSEMBLIES),
           "fault": None}
     if fault:
